@@ -21,12 +21,15 @@
     `to_datetime_complete_timestamp`; they are part of `family_roundtrip`.
   * fourth stage: `item_inverts_rfc3339`, `family_roundtrip_rfc3339_item` (the format `%+`), on C09's
     lemmas about `parse_rfc3339_relaxed` and C20's `write_rfc3339_autoSi_debug`.
+  * fifth stage: `family_format_succeeds` — formatting a member of the family (whose items the target
+    type can print: `Spec.showsFor`, part of `Spec.Unambiguous`) returns a text; the `family_roundtrip*`
+    theorems conclude it instead of assuming it.
   Not proved (compared with the crate and checked by the round-trip oracle only): the members listed in
   the docstring of `family_roundtrip_partial`.
   Concrete parser runs cannot be closed by `decide`: `Scan.number` is defined by mutual (well-founded)
   recursion, which the kernel does not unfold; the examples go through the theorems instead.
 -/
-import Chrono.Proofs.RoundTripRfc3339L
+import Chrono.Proofs.RoundTripFormatOkL
 import Chrono.Spec.UnambiguousSpec
 import Chrono.Extracted.ParseTable
 
@@ -289,9 +292,8 @@ specification `pf.sp`):
   `Spec.Unambiguous` (`invertible`);
 * white-space items of the *format* that contain non-ASCII white space, a fraction item directly after
   a white-space item, the `Z`-printing offset items (no specifier produces them);
-* zone-aware values whose local reading leaves the supported range;
-* that formatting a member of the family succeeds is a hypothesis of `family_roundtrip`, not a
-  conclusion. -/
+* zone-aware values whose local reading leaves the supported range.
+(That formatting a member of the family succeeds is no longer a hypothesis: `family_format_succeeds`.) -/
 theorem family_roundtrip_partial (T : Target) (fmt : List Nat) (v : Value) (tks : List Tok) (p' : Parsed)
     (hT : v.target = T)
     (hfmt : format v fmt = Format.wok (flatText tks))
@@ -398,8 +400,26 @@ Hypotheses common to the four theorems: the format's items are proved items (`Sp
 invertible item except non-ASCII white space written *in the format* and the `Z`-printing offset items,
 which no specifier produces), the format is in the family (`Spec.Unambiguous`), a white-space item is
 followed by a number, an offset, a name, am/pm, a visible literal or the end (`Spec.spaceSafe`), the
-value is expressible (`Spec.expressible`), and formatting succeeded with text `text`.  The value is an
-existing day `dateOfYo Y o` with `VD Y o` (C01: every `NaiveDate` is one) and a valid time of day. -/
+value is expressible (`Spec.expressible`).  The value is an existing day `dateOfYo Y o` with `VD Y o`
+(C01: every `NaiveDate` is one) and a valid time of day.  That formatting succeeds is a CONCLUSION
+(`family_format_succeeds`: `Spec.Unambiguous` demands that the target type can print every item —
+`Spec.showsFor`), so each theorem reads: there is a text that `format` returns, and parsing it gives … -/
+
+/-- **formatting a member of the family succeeds**: for every format string whose items are proved items
+the target type can print (`Spec.showsFor`, part of `Spec.Unambiguous`) and every value of that type
+(existing day, valid time of day, offset inside ±24 h, wall clock in range), the model's `format v fmt`
+returns a text — no `fmt::Error`, no panic -/
+theorem family_format_succeeds (fmt : List Nat) (v : Value)
+    (hv : match v with
+      | .date d => ∃ Y o, VD Y o ∧ d = dateOfYo Y o
+      | .time t => TValid t
+      | .naive dt => (∃ Y o, VD Y o ∧ dt.date = dateOfYo Y o) ∧ TValid dt.time
+      | .zoned z => ∃ Y o t, VD Y o ∧ TValid t ∧ z.overflowing_naive_local = .ok ⟨dateOfYo Y o, t⟩ ∧
+          -86400 < z.off ∧ z.off < 86400)
+    (hp : ∀ it ∈ Strftime.items fmt, provedItem it = true)
+    (hs : ∀ it ∈ Strftime.items fmt, showsFor v.target it = true) :
+    ∃ text, format v fmt = Format.wok text :=
+  format_family_ok (Strftime.items fmt) v hv hp hs
 
 theorem parse_from_str_of (T : Target) (fmt text : List Nat) (p' : Parsed) (r : Parsed.RP Value)
     (h1 : Parse.parse Parsed.new text (Strftime.items fmt) = .ok p') (h2 : resolve T p' = r) :
@@ -409,40 +429,45 @@ theorem parse_from_str_of (T : Target) (fmt text : List Nat) (p' : Parsed) (r : 
 /-- dates: `NaiveDate::parse_from_str(&d.format(fmt).to_string(), fmt) == Ok(d)` — calendar, ordinal,
 Sunday-week, Monday-week and ISO-week forms, signed and 5–6-digit years, `%C%y`, the `%y` pivot, names,
 every padding -/
-theorem family_roundtrip_date (fmt : List Nat) (Y : Int) (o : Nat) (hvd : VD Y o) (text : List Nat)
+theorem family_roundtrip_date (fmt : List Nat) (Y : Int) (o : Nat) (hvd : VD Y o)
     (hp : ∀ it ∈ Strftime.items fmt, provedItem it = true) (hU : Unambiguous (Strftime.items fmt) .date)
-    (hsafe : spaceSafe (Strftime.items fmt) = true) (hE : expressible (Strftime.items fmt) (.date (dateOfYo Y o)))
-    (hfmt : format (.date (dateOfYo Y o)) fmt = Format.wok text) :
+    (hsafe : spaceSafe (Strftime.items fmt) = true) (hE : expressible (Strftime.items fmt) (.date (dateOfYo Y o))) :
+    ∃ text, format (.date (dateOfYo Y o)) fmt = Format.wok text ∧
     parse_from_str .date text fmt = .ok (.ok (.date (dateOfYo Y o))) ∧
     truncate_to_precision (Strftime.items fmt) (.date (dateOfYo Y o)) = some (.date (dateOfYo Y o)) := by
+  obtain ⟨text, hfmt⟩ := family_format_succeeds fmt (.date (dateOfYo Y o)) ⟨Y, o, hvd, rfl⟩ hp
+    (fun it hm => (hU.1 it hm).2)
   obtain ⟨p', h1, h2⟩ := family_date _ Y o hvd text hp hU hsafe hE hfmt
-  exact ⟨parse_from_str_of .date fmt text p' _ h1 h2, rfl⟩
+  exact ⟨text, hfmt, parse_from_str_of .date fmt text p' _ h1 h2, rfl⟩
 
 /-- times of day: 24-hour and 12-hour clocks, with or without seconds, leap second `60`, every
 fraction item — the result is the time cut to the printed precision -/
-theorem family_roundtrip_time (fmt : List Nat) (t : Time) (htv : TValid t) (text : List Nat)
+theorem family_roundtrip_time (fmt : List Nat) (t : Time) (htv : TValid t)
     (hp : ∀ it ∈ Strftime.items fmt, provedItem it = true) (hU : Unambiguous (Strftime.items fmt) .time)
-    (hsafe : spaceSafe (Strftime.items fmt) = true) (hE : expressible (Strftime.items fmt) (.time t))
-    (hfmt : format (.time t) fmt = Format.wok text) :
+    (hsafe : spaceSafe (Strftime.items fmt) = true) (hE : expressible (Strftime.items fmt) (.time t)) :
+    ∃ text, format (.time t) fmt = Format.wok text ∧
     parse_from_str .time text fmt = .ok (.ok (.time (truncTime (Strftime.items fmt) t))) ∧
     truncate_to_precision (Strftime.items fmt) (.time t) = some (.time (truncTime (Strftime.items fmt) t)) := by
+  obtain ⟨text, hfmt⟩ := family_format_succeeds fmt (.time t) htv hp (fun it hm => (hU.1 it hm).2)
   obtain ⟨p', h1, h2⟩ := family_time _ t htv text hp hU hsafe hE hfmt
-  exact ⟨parse_from_str_of .time fmt text p' _ h1 h2, rfl⟩
+  exact ⟨text, hfmt, parse_from_str_of .time fmt text p' _ h1 h2, rfl⟩
 
 /-- naive date-times whose format has a full date and a full time (a `%s` next to them is allowed
 and cross-checked) -/
 theorem family_roundtrip_naive (fmt : List Nat) (Y : Int) (o : Nat) (hvd : VD Y o) (t : Time) (htv : TValid t)
-    (text : List Nat) (hp : ∀ it ∈ Strftime.items fmt, provedItem it = true)
+    (hp : ∀ it ∈ Strftime.items fmt, provedItem it = true)
     (hU : Unambiguous (Strftime.items fmt) .naive)
     (hfd : fullDate (carries (Strftime.items fmt)) = true) (hft : fullTime (carries (Strftime.items fmt)) = true)
     (hsafe : spaceSafe (Strftime.items fmt) = true)
-    (hE : expressible (Strftime.items fmt) (.naive ⟨dateOfYo Y o, t⟩))
-    (hfmt : format (.naive ⟨dateOfYo Y o, t⟩) fmt = Format.wok text) :
+    (hE : expressible (Strftime.items fmt) (.naive ⟨dateOfYo Y o, t⟩)) :
+    ∃ text, format (.naive ⟨dateOfYo Y o, t⟩) fmt = Format.wok text ∧
     parse_from_str .naive text fmt = .ok (.ok (.naive ⟨dateOfYo Y o, truncTime (Strftime.items fmt) t⟩)) ∧
     truncate_to_precision (Strftime.items fmt) (.naive ⟨dateOfYo Y o, t⟩) =
       some (.naive ⟨dateOfYo Y o, truncTime (Strftime.items fmt) t⟩) := by
+  obtain ⟨text, hfmt⟩ := family_format_succeeds fmt (.naive ⟨dateOfYo Y o, t⟩) ⟨⟨Y, o, hvd, rfl⟩, htv⟩ hp
+    (fun it hm => (hU.1 it hm).2)
   obtain ⟨p', h1, h2⟩ := family_naive _ Y o hvd t htv text hp hU hfd hft hsafe hE hfmt
-  refine ⟨parse_from_str_of .naive fmt text p' _ h1 h2, ?_⟩
+  refine ⟨text, hfmt, parse_from_str_of .naive fmt text p' _ h1 h2, ?_⟩
   simp only [truncate_to_precision, hfd, hft, Bool.and_self, if_true]
 
 /-- zone-aware values whose format has a full date, a full time and an offset item (`%z`, `%:z`) or a
@@ -450,16 +475,17 @@ timestamp: the result is what `Spec.truncate_to_precision` says — the local re
 precision at the printed, minute-rounded offset — whenever that value exists -/
 theorem family_roundtrip_zoned (fmt : List Nat) (z : Zoned) (Y : Int) (o : Nat) (hvd : VD Y o) (t : Time)
     (htv : TValid t) (hl : z.overflowing_naive_local = .ok ⟨dateOfYo Y o, t⟩)
-    (hzo : -86400 < z.off ∧ z.off < 86400) (text : List Nat)
+    (hzo : -86400 < z.off ∧ z.off < 86400)
     (hp : ∀ it ∈ Strftime.items fmt, provedItem it = true) (hU : Unambiguous (Strftime.items fmt) .zoned)
     (hfd : fullDate (carries (Strftime.items fmt)) = true) (hft : fullTime (carries (Strftime.items fmt)) = true)
     (hot : (carries (Strftime.items fmt)).offset = true ∨ (carries (Strftime.items fmt)).timestamp = true)
     (hsafe : spaceSafe (Strftime.items fmt) = true) (hE : expressible (Strftime.items fmt) (.zoned z))
-    (hfmt : format (.zoned z) fmt = Format.wok text) (v' : Value)
-    (hv' : truncate_to_precision (Strftime.items fmt) (.zoned z) = some v') :
-    parse_from_str .zoned text fmt = .ok (.ok v') := by
+    (v' : Value) (hv' : truncate_to_precision (Strftime.items fmt) (.zoned z) = some v') :
+    ∃ text, format (.zoned z) fmt = Format.wok text ∧ parse_from_str .zoned text fmt = .ok (.ok v') := by
+  obtain ⟨text, hfmt⟩ := family_format_succeeds fmt (.zoned z) ⟨Y, o, t, hvd, htv, hl, hzo⟩ hp
+    (fun it hm => (hU.1 it hm).2)
   obtain ⟨p', h1, h2⟩ := family_zoned _ z Y o hvd t htv hl hzo text hp hU hfd hft hot hsafe hE hfmt
-  exact parse_from_str_of .zoned fmt text p' _ h1 (h2 v' hv')
+  exact ⟨text, hfmt, parse_from_str_of .zoned fmt text p' _ h1 (h2 v' hv')⟩
 
 /-- **timestamp-only formats, `NaiveDateTime`** (`%s`, with literals and white space;
 `Spec.stampOnly`: the items carry a timestamp and no date, time or fraction field):
@@ -468,16 +494,18 @@ for every value — negative timestamps (before 1970) included; a leap second is
 second :59.  Rests on C14's `datetime_complete_timestamp` (completeness of the resolver's timestamp
 fall-back path) and on `item_inverts_timestamp`. -/
 theorem family_roundtrip_timestamp_naive (fmt : List Nat) (Y : Int) (o : Nat) (hvd : VD Y o) (t : Time)
-    (htv : TValid t) (text : List Nat) (hp : ∀ it ∈ Strftime.items fmt, provedItem it = true)
+    (htv : TValid t) (hp : ∀ it ∈ Strftime.items fmt, provedItem it = true)
     (hU : Unambiguous (Strftime.items fmt) .naive) (hso : stampOnly (carries (Strftime.items fmt)) = true)
     (hsafe : spaceSafe (Strftime.items fmt) = true)
-    (hE : expressible (Strftime.items fmt) (.naive ⟨dateOfYo Y o, t⟩))
-    (hfmt : format (.naive ⟨dateOfYo Y o, t⟩) fmt = Format.wok text) :
+    (hE : expressible (Strftime.items fmt) (.naive ⟨dateOfYo Y o, t⟩)) :
+    ∃ text, format (.naive ⟨dateOfYo Y o, t⟩) fmt = Format.wok text ∧
     parse_from_str .naive text fmt = .ok (.ok (.naive ⟨dateOfYo Y o, ⟨t.secs, 0⟩⟩)) ∧
     truncate_to_precision (Strftime.items fmt) (.naive ⟨dateOfYo Y o, t⟩) =
       some (.naive ⟨dateOfYo Y o, ⟨t.secs, 0⟩⟩) := by
+  obtain ⟨text, hfmt⟩ := family_format_succeeds fmt (.naive ⟨dateOfYo Y o, t⟩) ⟨⟨Y, o, hvd, rfl⟩, htv⟩ hp
+    (fun it hm => (hU.1 it hm).2)
   obtain ⟨p', h1, h2⟩ := family_stamp_naive _ Y o hvd t htv text hp hU hso hsafe hE hfmt
-  refine ⟨parse_from_str_of .naive fmt text p' _ h1 h2, ?_⟩
+  refine ⟨text, hfmt, parse_from_str_of .naive fmt text p' _ h1 h2, ?_⟩
   simp only [truncate_to_precision, stampOnly_not_fields _ hso, Bool.false_eq_true, if_false]
 
 /-- **timestamp-only formats, `DateTime<FixedOffset>`** (`%s`, `%s %z`, `%s%:z`, `%z %s`, with
@@ -488,15 +516,16 @@ whole-minute offsets) -/
 theorem family_roundtrip_timestamp_zoned (fmt : List Nat) (z : Zoned) (hu : Chrono.Spec.NDTInv z.utc)
     (Y : Int) (o : Nat) (hvd : VD Y o) (t : Time) (htv : TValid t)
     (hl : z.overflowing_naive_local = .ok ⟨dateOfYo Y o, t⟩)
-    (hzo : -86400 < z.off ∧ z.off < 86400) (text : List Nat)
+    (hzo : -86400 < z.off ∧ z.off < 86400)
     (hp : ∀ it ∈ Strftime.items fmt, provedItem it = true) (hU : Unambiguous (Strftime.items fmt) .zoned)
     (hso : stampOnly (carries (Strftime.items fmt)) = true)
     (hsafe : spaceSafe (Strftime.items fmt) = true) (hE : expressible (Strftime.items fmt) (.zoned z))
-    (hfmt : format (.zoned z) fmt = Format.wok text) (v' : Value)
-    (hv' : truncate_to_precision (Strftime.items fmt) (.zoned z) = some v') :
-    parse_from_str .zoned text fmt = .ok (.ok v') := by
+    (v' : Value) (hv' : truncate_to_precision (Strftime.items fmt) (.zoned z) = some v') :
+    ∃ text, format (.zoned z) fmt = Format.wok text ∧ parse_from_str .zoned text fmt = .ok (.ok v') := by
+  obtain ⟨text, hfmt⟩ := family_format_succeeds fmt (.zoned z) ⟨Y, o, t, hvd, htv, hl, hzo⟩ hp
+    (fun it hm => (hU.1 it hm).2)
   obtain ⟨p', h1, h2⟩ := family_stamp_zoned _ z hu Y o hvd t htv hl hzo text hp hU hso hsafe hE hfmt
-  exact parse_from_str_of .zoned fmt text p' _ h1 (h2 v' hv')
+  exact ⟨text, hfmt, parse_from_str_of .zoned fmt text p' _ h1 (h2 v' hv')⟩
 
 /-- what `truncate_to_precision` is for a timestamp-only format and a zone-aware value: the UTC reading
 at whole seconds, at the printed offset (0 without an offset item), provided its wall clock exists -/
@@ -512,11 +541,11 @@ theorem truncate_timestamp_zoned (is : List Item) (z : Zoned) (hso : stampOnly (
     if (carries is).offset = true then roundedOffset z.off else 0⟩ : Zoned).naive_local <;> rfl
 
 /-- **`family_roundtrip`** for the proved part of the family, all four target types in one statement:
-`parse_from_str(format(v)) = Ok(truncate_to_precision(v))`.  `ValueOk` collects the value invariants
+formatting succeeds and `parse_from_str(format(v)) = Ok(truncate_to_precision(v))`.  `ValueOk` collects the value invariants
 (existing day, valid time, valid UTC reading, offset inside ±24 h, local reading in range);
 `Spec.Unambiguous` says that the format either has the date/time fields its target needs or is a
 timestamp-only format (`Spec.stampOnly`). -/
-theorem family_roundtrip (fmt : List Nat) (v : Value) (text : List Nat) (v' : Value)
+theorem family_roundtrip (fmt : List Nat) (v : Value) (v' : Value)
     (hv : match v with
       | .date d => ∃ Y o, VD Y o ∧ d = dateOfYo Y o
       | .time t => TValid t
@@ -525,31 +554,36 @@ theorem family_roundtrip (fmt : List Nat) (v : Value) (text : List Nat) (v' : Va
           z.overflowing_naive_local = .ok ⟨dateOfYo Y o, t⟩ ∧ -86400 < z.off ∧ z.off < 86400)
     (hp : ∀ it ∈ Strftime.items fmt, provedItem it = true) (hU : Unambiguous (Strftime.items fmt) v.target)
     (hsafe : spaceSafe (Strftime.items fmt) = true) (hE : expressible (Strftime.items fmt) v)
-    (hfmt : format v fmt = Format.wok text)
     (hv' : truncate_to_precision (Strftime.items fmt) v = some v') :
-    parse_from_str v.target text fmt = .ok (.ok v') := by
-  cases v with
-  | date d =>
-    obtain ⟨Y, o, hvd, rfl⟩ := hv
-    obtain ⟨h1, h2⟩ := family_roundtrip_date fmt Y o hvd text hp hU hsafe hE hfmt
-    rw [h2] at hv'; cases hv'; exact h1
-  | time t =>
-    obtain ⟨h1, h2⟩ := family_roundtrip_time fmt t hv text hp hU hsafe hE hfmt
-    rw [h2] at hv'; cases hv'; exact h1
-  | naive dt =>
-    obtain ⟨⟨Y, o, hvd, hd⟩, htv⟩ := hv
-    obtain ⟨d, t⟩ := dt
-    simp only at hd htv; subst hd
-    rcases hU.2.2.2.2 with hform | hso
-    · obtain ⟨h1, h2⟩ := family_roundtrip_naive fmt Y o hvd t htv text hp hU hform.1 hform.2 hsafe hE hfmt
-      rw [h2] at hv'; cases hv'; exact h1
-    · obtain ⟨h1, h2⟩ := family_roundtrip_timestamp_naive fmt Y o hvd t htv text hp hU hso hsafe hE hfmt
-      rw [h2] at hv'; cases hv'; exact h1
-  | zoned z =>
-    obtain ⟨hu, Y, o, t, hvd, htv, hl, hzo⟩ := hv
-    rcases hU.2.2.2.2 with hform | hso
-    · exact family_roundtrip_zoned fmt z Y o hvd t htv hl hzo text hp hU hform.1.1 hform.1.2 hform.2 hsafe hE hfmt v' hv'
-    · exact family_roundtrip_timestamp_zoned fmt z hu Y o hvd t htv hl hzo text hp hU hso hsafe hE hfmt v' hv'
+    ∃ text, format v fmt = Format.wok text ∧ parse_from_str v.target text fmt = .ok (.ok v') ∧
+      roundtrip v fmt = some (text, .ok (.ok v')) := by
+  have key : ∃ text, format v fmt = Format.wok text ∧ parse_from_str v.target text fmt = .ok (.ok v') := by
+    cases v with
+    | date d =>
+      obtain ⟨Y, o, hvd, rfl⟩ := hv
+      obtain ⟨text, h0, h1, h2⟩ := family_roundtrip_date fmt Y o hvd hp hU hsafe hE
+      rw [h2] at hv'; cases hv'; exact ⟨text, h0, h1⟩
+    | time t =>
+      obtain ⟨text, h0, h1, h2⟩ := family_roundtrip_time fmt t hv hp hU hsafe hE
+      rw [h2] at hv'; cases hv'; exact ⟨text, h0, h1⟩
+    | naive dt =>
+      obtain ⟨⟨Y, o, hvd, hd⟩, htv⟩ := hv
+      obtain ⟨d, t⟩ := dt
+      simp only at hd htv; subst hd
+      rcases hU.2.2.2.2 with hform | hso
+      · obtain ⟨text, h0, h1, h2⟩ := family_roundtrip_naive fmt Y o hvd t htv hp hU hform.1 hform.2 hsafe hE
+        rw [h2] at hv'; cases hv'; exact ⟨text, h0, h1⟩
+      · obtain ⟨text, h0, h1, h2⟩ := family_roundtrip_timestamp_naive fmt Y o hvd t htv hp hU hso hsafe hE
+        rw [h2] at hv'; cases hv'; exact ⟨text, h0, h1⟩
+    | zoned z =>
+      obtain ⟨hu, Y, o, t, hvd, htv, hl, hzo⟩ := hv
+      rcases hU.2.2.2.2 with hform | hso
+      · exact family_roundtrip_zoned fmt z Y o hvd t htv hl hzo hp hU hform.1.1 hform.1.2 hform.2 hsafe hE v' hv'
+      · exact family_roundtrip_timestamp_zoned fmt z hu Y o hvd t htv hl hzo hp hU hso hsafe hE v' hv'
+  obtain ⟨text, h0, h1⟩ := key
+  refine ⟨text, h0, h1, ?_⟩
+  simp only [roundtrip, h0, Format.wok]
+  exact congrArg (fun r => some (text, r)) h1
 
 /-! ## the RFC 3339 item `%+`
 
@@ -618,7 +652,7 @@ theorem outside_family (t : Target) (is : List Item)
       Item.fixed .timezoneOffsetTripleColon ∈ is ∨ Item.fixed .timezoneOffsetPermissive ∈ is) :
     ¬ Unambiguous is t := by
   intro hu
-  rcases h with h | h | h | h <;> exact absurd (hu.1 _ h) (by decide)
+  rcases h with h | h | h | h <;> exact absurd (hu.1 _ h).1 (by decide)
 
 /-! ## non-vacuity: the hypotheses are met by non-trivial values -/
 
@@ -681,14 +715,16 @@ example :
 /-- `family_roundtrip_date` applies to *every* date with `%Y-%m-%d` (negative and 5–6-digit years
 included): all its hypotheses about the format are closed by evaluation, the value-dependent one
 (`expressible`) holds for every day -/
-example (Y : Int) (o : Nat) (hvd : VD Y o) (text : List Nat)
-    (hfmt : format (.date (dateOfYo Y o)) [37, 89, 45, 37, 109, 45, 37, 100] = Format.wok text) :
-    parse_from_str .date text [37, 89, 45, 37, 109, 45, 37, 100] = .ok (.ok (.date (dateOfYo Y o))) := by
+example (Y : Int) (o : Nat) (hvd : VD Y o) :
+    ∃ text, format (.date (dateOfYo Y o)) [37, 89, 45, 37, 109, 45, 37, 100] = Format.wok text ∧
+      parse_from_str .date text [37, 89, 45, 37, 109, 45, 37, 100] = .ok (.ok (.date (dateOfYo Y o))) := by
   have hi : Strftime.items [37, 89, 45, 37, 109, 45, 37, 100] =
       [.numeric .year .zero, .literal [45], .numeric .month .zero, .literal [45], .numeric .day .zero] := by
     decide +kernel
-  refine (family_roundtrip_date _ Y o hvd text (by rw [hi]; decide) (by rw [hi]; decide) (by rw [hi]; decide)
-    ?_ hfmt).1
+  suffices hE : expressible (Strftime.items [37, 89, 45, 37, 109, 45, 37, 100]) (.date (dateOfYo Y o)) by
+    obtain ⟨text, h0, h1, _⟩ := family_roundtrip_date _ Y o hvd (by rw [hi]; decide) (by rw [hi]; decide)
+      (by rw [hi]; decide) hE
+    exact ⟨text, h0, h1⟩
   rw [hi]
   obtain ⟨w, hw⟩ := Chrono.Proofs.ParsedRes.iso_week_ok Y o hvd
   have hc : carries [.numeric .year .zero, .literal [45], .numeric .month .zero, .literal [45], .numeric .day .zero] =
@@ -704,12 +740,14 @@ example (Y : Int) (o : Nat) (hvd : VD Y o) (text : List Nat)
 /-- `family_roundtrip_timestamp_naive` applies to *every* `NaiveDateTime` with `%s` (negative
 timestamps, leap seconds and sub-second parts included): the result is the value at whole seconds -/
 example (Y : Int) (o : Nat) (hvd : VD Y o) (t : Time) (htv : Chrono.Spec.TValid t)
-    (hleap : 1000000000 ≤ t.frac → t.secs % 60 = 59) (text : List Nat)
-    (hfmt : format (.naive ⟨dateOfYo Y o, t⟩) [37, 115] = Format.wok text) :
-    parse_from_str .naive text [37, 115] = .ok (.ok (.naive ⟨dateOfYo Y o, ⟨t.secs, 0⟩⟩)) := by
+    (hleap : 1000000000 ≤ t.frac → t.secs % 60 = 59) :
+    ∃ text, format (.naive ⟨dateOfYo Y o, t⟩) [37, 115] = Format.wok text ∧
+      parse_from_str .naive text [37, 115] = .ok (.ok (.naive ⟨dateOfYo Y o, ⟨t.secs, 0⟩⟩)) := by
   have hi : Strftime.items [37, 115] = [.numeric .timestamp .none] := by decide +kernel
-  refine (family_roundtrip_timestamp_naive _ Y o hvd t htv text (by rw [hi]; decide) (by rw [hi]; decide)
-    (by rw [hi]; decide) (by rw [hi]; decide) ?_ hfmt).1
+  suffices hE : expressible (Strftime.items [37, 115]) (.naive ⟨dateOfYo Y o, t⟩) by
+    obtain ⟨text, h0, h1, _⟩ := family_roundtrip_timestamp_naive _ Y o hvd t htv (by rw [hi]; decide)
+      (by rw [hi]; decide) (by rw [hi]; decide) (by rw [hi]; decide) hE
+    exact ⟨text, h0, h1⟩
   rw [hi]
   obtain ⟨w, hw⟩ := Chrono.Proofs.ParsedRes.iso_week_ok Y o hvd
   have hc : carries [.numeric .timestamp .none] = { timestamp := true } := by decide
@@ -733,17 +771,17 @@ example (z : Zoned) (hu : Chrono.Spec.NDTInv z.utc) (Y : Int) (o : Nat) (hvd : V
     (htv : Chrono.Spec.TValid t) (hleap : 1000000000 ≤ t.frac → t.secs % 60 = 59)
     (hl : z.overflowing_naive_local = .ok ⟨dateOfYo Y o, t⟩) (hzo : -86400 < z.off ∧ z.off < 86400)
     (hmin : z.off % 60 = 0) (l' : NaiveDT)
-    (hnl : (⟨⟨z.utc.date, ⟨z.utc.time.secs, 0⟩⟩, z.off⟩ : Zoned).naive_local = .ok l') (text : List Nat)
-    (hfmt : format (.zoned z) [37, 115, 32, 37, 122] = Format.wok text) :
-    parse_from_str .zoned text [37, 115, 32, 37, 122] =
-      .ok (.ok (.zoned ⟨⟨z.utc.date, ⟨z.utc.time.secs, 0⟩⟩, z.off⟩)) := by
+    (hnl : (⟨⟨z.utc.date, ⟨z.utc.time.secs, 0⟩⟩, z.off⟩ : Zoned).naive_local = .ok l') :
+    ∃ text, format (.zoned z) [37, 115, 32, 37, 122] = Format.wok text ∧
+      parse_from_str .zoned text [37, 115, 32, 37, 122] =
+        .ok (.ok (.zoned ⟨⟨z.utc.date, ⟨z.utc.time.secs, 0⟩⟩, z.off⟩)) := by
   have hi : Strftime.items [37, 115, 32, 37, 122] =
       [.numeric .timestamp .none, .space [32], .fixed .timezoneOffset] := by decide +kernel
   have hc : carries [.numeric .timestamp .none, .space [32], .fixed .timezoneOffset] =
       { timestamp := true, offset := true } := by decide
   have hro := rounded_of_whole z.off hmin
-  refine family_roundtrip_timestamp_zoned _ z hu Y o hvd t htv hl hzo text (by rw [hi]; decide)
-    (by rw [hi]; decide) (by rw [hi]; decide) (by rw [hi]; decide) ?_ hfmt _ ?_
+  refine family_roundtrip_timestamp_zoned _ z hu Y o hvd t htv hl hzo (by rw [hi]; decide)
+    (by rw [hi]; decide) (by rw [hi]; decide) (by rw [hi]; decide) ?_ _ ?_
   · rw [hi]
     obtain ⟨w, hw⟩ := Chrono.Proofs.ParsedRes.iso_week_ok Y o hvd
     refine ⟨?_, ?_, ?_, ?_, ?_⟩
@@ -782,15 +820,17 @@ example :
   rw [ht]
 
 /-- the same for every valid time of day with `%H:%M:%S%.f` (leap second `60` and every fraction) -/
-example (t : Time) (htv : Chrono.Spec.TValid t) (hleap : 1000000000 ≤ t.frac → t.secs % 60 = 59) (text : List Nat)
-    (hfmt : format (.time t) [37, 72, 58, 37, 77, 58, 37, 83, 37, 46, 102] = Format.wok text) :
-    parse_from_str .time text [37, 72, 58, 37, 77, 58, 37, 83, 37, 46, 102] = .ok (.ok (.time t)) := by
+example (t : Time) (htv : Chrono.Spec.TValid t) (hleap : 1000000000 ≤ t.frac → t.secs % 60 = 59) :
+    ∃ text, format (.time t) [37, 72, 58, 37, 77, 58, 37, 83, 37, 46, 102] = Format.wok text ∧
+      parse_from_str .time text [37, 72, 58, 37, 77, 58, 37, 83, 37, 46, 102] = .ok (.ok (.time t)) := by
   have hi : Strftime.items [37, 72, 58, 37, 77, 58, 37, 83, 37, 46, 102] =
       [.numeric .hour .zero, .literal [58], .numeric .minute .zero, .literal [58], .numeric .second .zero,
        .fixed .nanosecond] := by decide +kernel
-  have h := (family_roundtrip_time _ t htv text (by rw [hi]; decide) (by rw [hi]; decide) (by rw [hi]; decide)
-    ?_ hfmt).1
-  · rw [h, hi]
+  have h := family_roundtrip_time [37, 72, 58, 37, 77, 58, 37, 83, 37, 46, 102] t htv (by rw [hi]; decide)
+    (by rw [hi]; decide) (by rw [hi]; decide) ?_
+  · obtain ⟨text, h0, h, _⟩ := h
+    refine ⟨text, h0, ?_⟩
+    rw [h, hi]
     have hfd : fracDigits [.numeric .hour .zero, .literal [58], .numeric .minute .zero, .literal [58],
         .numeric .second .zero, .fixed .nanosecond] = 9 := by decide
     have hc : (carries [.numeric .hour .zero, .literal [58], .numeric .minute .zero, .literal [58],
